@@ -145,12 +145,19 @@ class Let:
         self.body = body
 
 
+class Lit:
+    """A condition that is an expression (a literal): nothing to look up, nothing bound."""
+
+    def __init__(self, value):
+        self.value = value
+
+
 class If:
     def __init__(self, name, body, orelse, elifs=()):
-        self.name = name
+        self.name = name              # a name, or Lit: the condition is an expression
         self.body = body
         self.orelse = orelse
-        self.elifs = list(elifs)      # [(name, body)]
+        self.elifs = list(elifs)      # [(name | Lit, body)]
 
 
 class Unless:
@@ -251,6 +258,13 @@ def to_dtml(ast, syntax='html', sp=None):
             return name
         toggle[0] += 1
         return ('name=%s' if toggle[0] % 2 else 'name="%s"') % name
+
+    def cond(c):
+        """The condition of an if / elif tag: a name, or an expression."""
+        if isinstance(c, Lit):
+            toggle[0] += 1
+            return ('"%r"' if syntax != 'named' and toggle[0] % 2 else 'expr="%r"') % (c.value,)
+        return nm(c)
     if syntax == 'old':
         def opn(tag, args=''):
             return '<!--#%s%s-->' % (tag, args and ' ' + args)
@@ -304,8 +318,8 @@ def to_dtml(ast, syntax='html', sp=None):
                          for a, f, s in n.bindings)
             out.append(opn('let', b) + to_dtml(n.body, syntax, sp) + cls('let'))
         elif isinstance(n, If):
-            mid = ''.join(opn('elif', nm(en)) + to_dtml(eb, syntax, sp) for en, eb in n.elifs)
-            out.append(opn('if', nm(n.name)) + to_dtml(n.body, syntax, sp) + mid + opn('else')
+            mid = ''.join(opn('elif', cond(en)) + to_dtml(eb, syntax, sp) for en, eb in n.elifs)
+            out.append(opn('if', cond(n.name)) + to_dtml(n.body, syntax, sp) + mid + opn('else')
                        + to_dtml(n.orelse, syntax, sp) + cls('if'))
         elif isinstance(n, Unless):
             out.append(opn('unless', nm(n.name)) + to_dtml(n.body, syntax, sp) + cls('unless'))
@@ -490,6 +504,12 @@ class Model:
                 st = stack + [cache]
                 chosen = n.orelse
                 for cname, cbody in [(n.name, n.body)] + n.elifs:
+                    if isinstance(cname, Lit):
+                        # an expression condition: no lookup by name, nothing cached
+                        if cname.value:
+                            chosen = cbody
+                            break
+                        continue
                     try:
                         v = self.resolve(st, cname)
                     except Missing:
